@@ -267,7 +267,17 @@ class AsyncIOBackend(AbstractAsyncBackend):
         )
         protocol_factory = _utils.make_callback(DatagramListenerProtocol, loop=loop)
 
-        listeners = [await loop.create_datagram_endpoint(protocol_factory, sock=sock) for sock in sockets]
+        listeners: list[tuple[Any, DatagramListenerProtocol]] = []
+        try:
+            for sock in sockets:
+                listeners.append(await loop.create_datagram_endpoint(protocol_factory, sock=sock))
+        except BaseException:
+            # e.g. cancellation: do not leave behind the endpoints already created nor the sockets not yet used.
+            for transport, _ in listeners:
+                transport.abort()
+            for sock in sockets:
+                sock.close()
+            raise
         return [DatagramListenerSocketAdapter(self, transport, protocol) for transport, protocol in listeners]
 
     def create_lock(self) -> ILock:
